@@ -946,8 +946,9 @@ class XsdGroup(XsdComponent, MutableSequence[ModelParticleType],
         matched element, or `None` if there is no match.
         """
         for xsd_element in self.elements:
-            if xsd_element.is_matching(name, group=self):
-                return xsd_element
+            matched_element = xsd_element.match(name, group=self)
+            if matched_element is not None:
+                return matched_element  # can be a member of the substitution group
         return None
 
     def raw_decode(self, obj: ElementType, validation: str, context: ValidationContext) \
